@@ -444,8 +444,12 @@ fn build_sources(opts: &Opts, rng: &mut Rng) -> Vec<(String, Layout, Vec<Vec<Key
     }
   }
   if want("random") {
-    let n = opts.num("random", if thorough { 20000 } else { 300 });
+    let n = opts.num("random", if thorough { 20000 } else { 600 });
     for i in 0..n {
+      if i % 3 == 2 {
+        res.push((format!("random:absrich:{}", i), h_layouts::absorbing_rich_layout(rng), vec![]));
+        continue;
+      }
       let flavor = match i % 4 { 0 => Flavor::Plain, 1 => Flavor::Plain, 2 => Flavor::Absorbing, _ => Flavor::Canonical };
       let l = h_layouts::random_layout(rng, flavor);
       let tag = match flavor { Flavor::Plain => "plain", Flavor::Absorbing => "abs", Flavor::Canonical => "canon" };
